@@ -874,3 +874,102 @@ def run_gvn_invalidate(res, ast, rule="GVN-INVALIDATE", live_rule="LIVE-OUTER"):
         res.check(not probs, rule, f"{BC}|emit_block|{tag}", where(BC, fn, "emit_block"), f"{tag}: " + "; ".join(probs[:2]))
         if not scan_form and not any(p_.startswith("cannot be analysed") for p_ in probs):
             res.check(not lprobs, live_rule, f"{BC}|emit_block|scenario|{tag}", where(BC, fn, "emit_block"), f"{tag}: " + "; ".join(lprobs[:2]))
+
+
+def run_use_registers(res, ast, rule="LIVE-OUTER"):
+    """every place that makes an instruction use an existing value must record the use the way `read` does: range extended to the current position,
+    use counted, and - when the value is older than the current loop and is met for the first time inside it - registered in outer_accessed.
+    get_value (operands of a new Add/Sub/Mul) and mem_write (the stored value) are evaluated with lib/receval.py on order classes."""
+    import receval, itereval
+    from receval import Rec, MapV
+    from rusteval import Env as _Env, ReturnEx as _Ret, Unanalysable as _Un, Reached as _Re, NONE as _NONE
+    G = lambda n, *f: itereval.Ctor("GvnExpr::" + n, list(f))
+    CS, NOW = 10, 20
+    mk = lambda c: Rec(created=c, first_use=_NONE, last_use=_NONE, num_uses=0)
+
+    def fresh():
+        return Rec(values=MapV({G("Mem", 1): 0, G("Mem", 2): 1}), exprs=[G("Mem", 1), G("Mem", 2)], outer_accessed=[], insts=[itereval.Ctor("Instr::Noop", [])] * NOW,
+                   ranges=[mk(3), mk(15)], current_start=CS, writes=MapV())
+
+    def run(fname, args):
+        fn = ast.fn(BC, fname)["node"]
+        me = fresh()
+        it = receval.RecInterp(ast, BC, me)
+        ps = [p_ for p_ in fn["sig"]["inputs"] if p_["t"] == "Arg"]
+        if len(ps) != len(args) or any(p_["pat"]["t"] != "PIdent" for p_ in ps):
+            raise _Un(f"{fname}: unexpected parameters")
+        env = _Env()
+        for p_, a_ in zip(ps, args):
+            env.bind(p_["pat"]["name"], a_)
+        try:
+            v = it.exec_block(fn["body"], env)
+        except _Ret as r_:
+            v = r_.value
+        return me, v
+
+    def used(me, v, what, probs):
+        r_ = me["ranges"][v]
+        if not (r_["last_use"].some and r_["last_use"].v == NOW):
+            probs.append(f"{what}: the live range of the used value ends at {r_['last_use']!r}, the instruction that uses it is number {NOW}")
+        if r_["num_uses"] != 1:
+            probs.append(f"{what}: the use is counted {r_['num_uses']} times")
+        if r_["created"] < CS and v not in me["outer_accessed"]:
+            probs.append(f"{what}: a value older than the current loop is used inside it without being registered in outer_accessed (nothing keeps it alive over the back edge)")
+    def run_store():
+        """emit_block on a block with one single-cell Calc whose right-hand side evaluates to the existing value 0; wherever the store is written
+        (mem_write, or inlined into the arm)"""
+        from receval import Variant
+        from rusteval import Tup as _Tup, Res as _Res
+        fn = ast.fn(BC, "emit_block")["node"]
+        me = fresh()
+
+        class ExprObj:
+            pass
+
+        class SI(receval.RecInterp):
+            def method(self, recv, name, targs, args, node):
+                if isinstance(recv, ExprObj) and name == "codegen":
+                    return _Res(True, 0)
+                return super().method(recv, name, targs, args, node)
+        it = SI(ast, BC, me, scripted={"get_expr_value": lambda it_, e_, v_=None: 0})
+        ps = [p_["pat"]["name"] for p_ in fn["sig"]["inputs"] if p_["t"] == "Arg" and p_["pat"]["t"] == "PIdent"]
+        if len(ps) != 3:
+            raise _Un("emit_block: unexpected parameters")
+        env = _Env()
+        calc = Variant("ir::Instr::Calc", {"calcs": [_Tup([7, ExprObj()])]})
+        for n_, v_ in zip(ps, [Rec(insts=[calc], shift=0), Rec(has_shift=False, writes=[7], sub_anal=[], min_accessed=0, max_accessed=9), True]):
+            env.bind(n_, v_)
+        try:
+            it.exec_block(fn["body"], env)
+        except _Ret:
+            pass
+        return me, None
+
+    for fname, mkargs, who, what in (("get_value", lambda: [G("Add", 0, 1)], (0, 1), "operands of a new Add"), ("get_value", lambda: [G("Mul", 1, 0)], (0, 1), "operands of a new Mul"),
+                                     ("emit_block", None, (0,), "the value stored to a cell")):
+        probs = []
+        try:
+            me, v = run(fname, mkargs()) if mkargs else run_store()
+            for x in who:
+                used(me, x, what, probs)
+            if fname == "get_value":
+                if v != 2 or len(me["ranges"]) != 3 or me["ranges"][2]["created"] != NOW:
+                    probs.append(f"a new expression gets value number {v!r} with {len(me['ranges'])} range records (expected number 2, created at {NOW})")
+                if len(me["insts"]) != NOW + 1:
+                    probs.append("no instruction is emitted for a new expression")
+                e_ = mkargs()[0]
+                if me["values"].get(e_) != 2:
+                    probs.append("the new expression is not entered into the value table")
+            else:
+                if me["values"].get(G("Mem", 7)) != 0:
+                    probs.append("the store does not bind the cell to the stored value")
+        except Missing as m_:
+            probs.append(f"anchor missing (fail closed): {m_}")
+        except (_Un, _Re, KeyError, TypeError, IndexError, AttributeError) as u_:
+            probs.append(f"cannot be analysed (fail closed): {u_}")
+        res.evaluations += 1
+        try:
+            w_ = where(BC, ast.fn(BC, fname)["node"], fname)
+        except Missing:
+            w_ = BC
+        res.check(not probs, rule, f"{BC}|{fname}|use|{what}", w_, f"{fname}: " + "; ".join(sorted(set(probs))[:2]))
